@@ -271,69 +271,4 @@ theorem select_roundtrip (c : Cfg E) (cte : Option E) (d : Bool) (t : List E) (c
   rw [hh.1, hh.2.1, hh.2.2] at this
   exact this
 
-/-! ### set-operation chains -/
-
-theorem parse_print_aux : ∀ (q : Q), leftNested q = true → ∀ rest,
-    parseQ (printQ q ++ rest) = chain q rest := by
-  intro q
-  induction q with
-  | sel n => intro _ rest; simp [printQ, parseQ, operand]
-  | comb o u l r ihl _ =>
-    intro h rest
-    cases r with
-    | comb _ _ _ _ => simp [leftNested] at h
-    | sel n =>
-      simp only [leftNested] at h
-      have := ihl h (.op o u :: .sel n :: rest)
-      simp only [printQ, List.append_assoc, List.cons_append, List.nil_append] at this ⊢
-      rw [this]
-      simp [chain, operand]
-
-/-- left-nested chains (what `a OP b OP c …` without parentheses parses to) round-trip -/
-theorem union_roundtrip (q : Q) (h : leftNested q = true) : parseQ (printQ q) = some q := by
-  have := parse_print_aux q h []
-  simpa [chain] using this
-
-def noGrp : List QTok → Bool
-  | [] => true
-  | .grp _ :: _ => false
-  | _ :: r => noGrp r
-
-theorem chain_left : ∀ (n : Nat) (toks : List QTok) (acc q : Q), toks.length ≤ n → leftNested acc = true →
-    noGrp toks = true → chain acc toks = some q → leftNested q = true := by
-  intro n
-  induction n with
-  | zero =>
-    intro toks acc q hl ha _ h
-    cases toks with
-    | nil => simp [chain] at h; exact h ▸ ha
-    | cons t r => simp at hl
-  | succ n ih =>
-    intro toks acc q hl ha hn h
-    match toks, hl, hn, h with
-    | [], _, _, h => simp [chain] at h; exact h ▸ ha
-    | [_], _, _, h => simp [chain] at h
-    | .op o u :: .sel m :: rest, hl, hn, h =>
-      simp only [chain, operand] at h
-      refine ih rest _ q ?_ ?_ ?_ h
-      · simp at hl; omega
-      · simpa [leftNested] using ha
-      · simpa [noGrp] using hn
-    | .op o u :: .grp g :: rest, _, hn, _ => simp [noGrp] at hn
-    | .op o u :: .op _ _ :: rest, _, _, h => simp [chain, operand] at h
-    | .sel _ :: _ :: _, _, _, h => simp [chain] at h
-    | .grp _ :: _ :: _, _, _, h => simp [chain] at h
-
-/-- the round trip for EVERY parenthesis-free token list the chain rules accept -/
-theorem union_roundtrip_tokens (toks : List QTok) (q : Q) (hn : noGrp toks = true)
-    (h : parseQ toks = some q) : parseQ (printQ q) = some q := by
-  apply union_roundtrip
-  match toks, hn, h with
-  | .sel m :: rest, hn, h =>
-    simp only [parseQ, operand] at h
-    exact chain_left rest.length rest _ q (Nat.le_refl _) rfl (by simpa [noGrp] using hn) h
-  | .grp _ :: _, hn, _ => simp [noGrp] at hn
-  | .op _ _ :: _, _, h => simp [parseQ, operand] at h
-  | [], _, h => simp [parseQ] at h
-
 end MindsVerif.SelectSkel
